@@ -277,7 +277,7 @@ def _shape_like(spec, ov, a):
 @st.composite
 def histories(draw, tier, max_ops=8, objects=('A',), copies=('deepcopy',), name_rate=3, end_with_calc=True, fcopies=False,
               start_with_copy=False, edits=False):
-    spec = draw(G.specs(tier, max_books=2, wholecols=False, name_rate=name_rate, arr_rate=4))
+    spec = draw(G.specs(tier, max_books=2, wholecols=False, name_rate=name_rate, arr_rate=4, alias_rate=3))
     path = draw(st.sampled_from(['dict', 'dict', 'file']))
     forms = [c for c in spec['cells'] if 'f' in c and 'arr' not in c]
     pop = sorted(W.populated(spec))
